@@ -19,7 +19,7 @@ CORRESPONDENCES = [
 TRUSTED = [
     'Coq 8.16.1 kernel (coqc); no native_compute',
     'extraction with ExtrOcamlBasic only; ocaml/driver.ml; ocamlopt',
-    'costs are integers (as the real n^2 / n^3 costs are): float rounding inside Python load accumulation is outside the model and the generator',
+    'costs are integers (as the real n^2 / n^3 costs are), also scaled by exact powers of two (small fractional costs): float rounding inside Python load accumulation is outside the model and the generator',
     'factor names are mapped to their rank in Python string order by the harness',
 ]
 THEOREMS = ['greedy_rule', 'greedy_complete_confined', 'greedy_colocated', 'balance_workers', 'balance_groups']
@@ -31,6 +31,9 @@ GROUPSETS_SMALL = [
     [[0]], [[0, 1]], [[1, 0]], [[0], [1]], [[1], [0]], [[0, 1], [2, 3]], [[0, 2], [1, 3]],
     [[2, 3], [0, 1]], [[0], [1, 2]], [[0, 1, 2, 3]], [[3], [0, 1, 2]], [[0], [1], [2], [3]],
 ]
+
+
+SCALES = [2.0 ** -30, 2.0 ** -23, 2.0 ** 9, 2.0 ** -17]
 
 
 def encode(work, groups, colocate):
@@ -161,6 +164,12 @@ def run(tier, seed, rng):
                 err = 'arguments were mutated'
             if set(res) != set(work) or any(set(res[l]) != set(work[l]) for l in work):
                 err = 'result does not have the structure of the work dictionary'
+            # the rule only compares sums: scaling every cost by a power of two (exact in binary floating point,
+            # e.g. costs measured in seconds ~1e-7 instead of integers) must not change the assignment
+            sc = SCALES[len(impl) % len(SCALES)]
+            res3 = KAISAAssignment.greedy_assignment({l: {f: c * sc for f, c in fs.items()} for l, fs in work.items()}, groups, world, colocate)
+            if err is None and res3 != res:
+                err = f'assignment changes when every cost is multiplied by {sc!r} (an exact power of two)'
         except Exception as e:  # noqa: BLE001
             res, err = None, f'raised {type(e).__name__}: {e}'
         impl.append((res, err))
